@@ -328,6 +328,15 @@ func init() {
 		if nh != 1 {
 			c.Undecided("C33c: expected one ResponseHash assignment in handleResponse, found %d", nh)
 		}
+		// who-may-write: the cached hash is the group key, so it may only ever be set on the
+		// response whose own data was hashed — never on a result picked by position
+		for _, s := range c.FieldStores("protocol/common.RelayResult.ResponseHash") {
+			if !inProd(s.Fn) || s.Fn == hr {
+				continue
+			}
+			c.Fail("C33c/RelayResult.ResponseHash/written-only-by-handleResponse/"+ir.FuncName(s.Fn), c.P.InstrPos(s.Instr), "the cached response hash (the cross-validation group key) is also written in "+ir.FuncName(s.Fn)+": a hash attached to a result other than the one whose data was hashed moves that result into a foreign agreement group")
+		}
+		c.OK("C33c/RelayResult.ResponseHash/written-only-by-handleResponse", c.P.Pos(hr.Pos()), "no other production function stores the field")
 		c.NotCovered("arrival order and which of several equally large groups wins (map iteration order — any of them is 'a largest group'); collision resistance of sha256")
 	})
 }
